@@ -21,6 +21,7 @@ type Op struct {
 	Size   int    `json:"size,omitempty"`
 	ID     uint64 `json:"id,omitempty"`     // write id (unique per program)
 	Level  int    `json:"level,omitempty"`  // begin: isolation level
+	NoLvl  bool   `json:"nolvl,omitempty"`  // begin: call Begin(ctx) without a level (Level is then 1: the documented default is ReadCommitted)
 	Writes []int  `json:"writes,omitempty"` // create: sizes of the Write calls
 	Shape  string `json:"shape,omitempty"`  // setr: reader shape (plain, byte, short, zero, dataeof)
 	N      int    `json:"n,omitempty"`      // bg: number of background steps; gc: repetitions
@@ -41,6 +42,9 @@ func (o Op) String() string {
 	}
 	if o.K == "begin" {
 		s += fmt.Sprintf(" level=%d", o.Level)
+		if o.NoLvl {
+			s += "(no level given)"
+		}
 	}
 	return s
 }
@@ -151,7 +155,13 @@ func (a *actors) apply(ctx context.Context, o Op) OpResult {
 	var r OpResult
 	switch o.K {
 	case "begin":
-		t, err := a.db.Begin(ctx, levels[o.Level])
+		var t fs_db.Tx
+		var err error
+		if o.NoLvl && o.Level == 1 {
+			t, err = a.db.Begin(ctx)
+		} else {
+			t, err = a.db.Begin(ctx, levels[o.Level])
+		}
 		r.Err = err
 		if err == nil {
 			a.txs[o.tx()] = t
